@@ -375,8 +375,9 @@ fn main() {
             return (cuckoo::PairStats::default(), vec![]);
         }
         let lim = if cfg.budget.is_none() { 2 } else { 4 };
-        let rights: Vec<cuckoo::St> = cex.states.iter().filter(|s| s.f.len() <= lim).cloned().collect();
-        cuckoo::pair_sweep(&cm, &cex.states, &rights, 1)
+        let rights: Vec<cuckoo::St> = cex.states.iter().filter(|s| s.off == 0 && s.f.len() <= lim).take(5000).cloned().collect();
+            let lefts: Vec<cuckoo::St> = cex.states.iter().filter(|s| s.off == 0).take(5000).cloned().collect();
+        cuckoo::pair_sweep(&cm, &lefts, &rights, 1)
     });
     let (mut cp, mut cr, mut cok) = (0u64, 0u64, 0u64);
     for (ps, pv) in cres {
